@@ -27,7 +27,8 @@ try:
     ran.append("patched tree: suite: " + o3.strip())
     ok = rc_clean == 0 and rc_pat != 0 and re.search(r"4 failed, 1822 passed", o3)
 finally:
-    sh("git -C /repo worktree remove --force %s" % wt)
+    if skip_check or not ok:
+        sh("git -C /repo worktree remove --force %s" % wt)
 print("\n".join(ran))
 if not ok:
     print("NOT KEPT"); sys.exit(1)
@@ -39,11 +40,12 @@ meta = json.load(open(os.path.join(src, "meta.json")))
 meta["property"] = pid
 meta["confirmed"] = ran
 if not skip_check:
-    sh("git apply %s/patch.diff" % dst, cwd="/repo")
+    # the patched scratch worktree stands in for /repo (PYCOIN_REPO), so /repo itself is never touched
     try:
-        rc, o = sh("./check %s --tier quick" % pid, cwd="/verif", timeout=3000)
+        rc, o = sh("./check %s --tier quick" % pid, cwd="/verif", timeout=3000, env=dict(os.environ, PYCOIN_REPO=wt))
     finally:
-        sh("git checkout -- .", cwd="/repo")
+        sh("git -C /repo worktree remove --force %s" % wt)
+        sh("git checkout -- lean/Pycoin/Gen evidence/%s.json" % pid, cwd="/verif")
     lines = [l for l in o.split("\n") if l.startswith("VIOLATION")]
     replays = []
     for l in lines[:3]:
